@@ -46,9 +46,9 @@ mark, and which was checked in this run, is clean for that dependent (see `C02.m
 theorem cutoff (R n : Nat) (w : World) (c : List Nat) (f mx ch : Nat) (seen : List Nat)
     (hs : f ∉ seen) (hf : (getRec w R f).failed = none) (hc : (getRec w R f).changed = some ch)
     (hle : ch ≤ mx) (hck : isCheckedR (getRec w R f) R = true) :
-    (isDirty false R (n + 1) w c f mx seen).1 = .clean := by
+    (isDirty false R (n + 1) w c f mx seen none).1 = .clean := by
   have : ¬ ch > mx := by omega
-  simp (config := { zeta := true, zetaHave := true }) only [isDirty, hs, hf, hc, this, hck, if_true, if_false,
+  simp (config := { zeta := true, zetaHave := true }) only [isDirty, Option.getD_none, hs, hf, hc, this, hck, if_true, if_false,
     Option.isSome_none, Bool.false_eq_true]
 
 end C03
